@@ -19,20 +19,100 @@ def InEntries (es : List Entry) (m : Move) : Prop :=
 def ownMask (b : Board) : BB := ~~~(b.raw.color b.turn) &&& BB.full
 
 theorem mem_ownMask (b : Board) (hp : b.raw.partitionOk = true) (d : Sq) :
-    BB.mem (ownMask b) d = !((abs b).colorAt d == some b.turn) := sorry
+    BB.mem (ownMask b) d = !((abs b).colorAt d == some b.turn) := by
+  unfold ownMask
+  rw [BB.mem_and', BB.mem_not', BB.mem_full, Bool.and_true, AbsL.mem_color b hp]
 
 /-- what `pushEntries` pushes -/
 theorem mem_pushEntries (srcs : List Sq) (f : Sq → BB) (promo : Sq → Bool) (e : Entry) :
-    e ∈ Board.pushEntries srcs f promo ↔ ∃ s ∈ srcs, BB.none (f s) = false ∧ e = ⟨s, f s, promo s⟩ := sorry
+    e ∈ Board.pushEntries srcs f promo ↔ ∃ s ∈ srcs, BB.none (f s) = false ∧ e = ⟨s, f s, promo s⟩ := by
+  unfold Board.pushEntries
+  rw [List.mem_filterMap]
+  constructor
+  · rintro ⟨s, hs, h⟩
+    refine ⟨s, hs, ?_⟩
+    cases hn : BB.none (f s) with
+    | true => simp only [hn, if_true] at h; cases h
+    | false =>
+      simp only [hn, Bool.false_eq_true, if_false, Option.some.injEq] at h
+      exact ⟨rfl, h.symm⟩
+  · rintro ⟨s, hs, hn, rfl⟩
+    refine ⟨s, hs, ?_⟩
+    simp only [hn, Bool.false_eq_true, if_false]
+
+/-- a piece of colour `c` attacking `k'` is among `attackersOf k' c` -/
+theorem mem_attackersOf (b : Board) (hp : b.raw.partitionOk = true) (k' x : Sq) (c : Color) (pc : Piece)
+    (hx : (abs b).pieceAt x = some (c, pc)) (ha : (abs b).attacksFrom x c pc k' = true) :
+    BB.mem (Board.attackersOf b.raw k' c b.raw.all) x = true := by
+  obtain ⟨h1, h2⟩ := mem_of_at b hp x c pc hx
+  have hb : BB.mem b.raw.bishop x = (pc == .bishop) := h2 .bishop
+  have hr : BB.mem b.raw.rook x = (pc == .rook) := h2 .rook
+  have hq : BB.mem b.raw.queen x = (pc == .queen) := h2 .queen
+  have hn : BB.mem b.raw.knight x = (pc == .knight) := h2 .knight
+  have hk : BB.mem b.raw.king x = (pc == .king) := h2 .king
+  have hpw : BB.mem b.raw.pawn x = (pc == .pawn) := h2 .pawn
+  unfold Board.attackersOf
+  simp only [BB.mem_and', BB.mem_or', Props.C08.mem_bishopMoves, Props.C08.mem_rookMoves,
+    Props.C09.mem_knightMoves, Props.C09.mem_kingMoves, Props.C09.mem_pawnAttacksMoves,
+    hb, hr, hq, hn, hk, hpw, h1 c]
+  rw [← AbsL.occupied_eq b hp, rookReach_symm _ k' x, bishopReach_symm _ k' x, knightAtt_symm k' x,
+    kingAtt_symm k' x, pawnAtt_symm c.flip k' x, Color.flip_flip]
+  cases pc <;> simp only [Position.attacksFrom, Bool.or_eq_true] at ha <;> (try rcases ha with ha | ha) <;>
+    (try simp only [List.contains_iff_mem] at ha) <;> simp [ha]
 
 /-- on a well-formed board the side to move attacks the opponent's king with nothing -/
 theorem opp_king_not_attacked (b : Board) (h : b.WF = true) :
-    (abs b).attacked (b.kingSq b.turn.flip) b.turn = false := sorry
+    (abs b).attacked (b.kingSq b.turn.flip) b.turn = false := by
+  have hp := AbsL.wf_partition b h
+  have hs := AbsL.wf_opponent_safe b h
+  rw [Bool.eq_false_iff]
+  intro ha
+  unfold Position.attacked at ha
+  rw [List.any_eq_true] at ha
+  obtain ⟨x, _, hx⟩ := ha
+  rcases hP : (abs b).pieceAt x with _ | ⟨c', pc⟩
+  · rw [hP] at hx; cases hx
+  · rw [hP] at hx
+    simp only [Bool.and_eq_true, beq_iff_eq] at hx
+    obtain ⟨rfl, hx⟩ := hx
+    have : BB.any (Board.attackersOf b.raw (b.kingSq b.turn.flip) b.turn b.raw.all) = true := by
+      rw [BB.any_iff]
+      exact ⟨x, mem_attackersOf b hp _ x _ pc hP hx⟩
+    rw [hs] at this
+    cases this
 
 /-- hence a destination attacked by an own piece never holds the enemy king: `destOk` is "not own" -/
 theorem destOk_of_attacks (b : Board) (h : b.WF = true) (s d : Sq) (pc : Piece)
     (hs : (abs b).pieceAt s = some (b.turn, pc)) (ha : (abs b).attacksFrom s b.turn pc d = true) :
-    destOk (abs b) b.turn d = !((abs b).colorAt d == some b.turn) := sorry
+    destOk (abs b) b.turn d = !((abs b).colorAt d == some b.turn) := by
+  have hp := AbsL.wf_partition b h
+  have hk := AbsL.wf_hasKings b h
+  unfold destOk Position.colorAt
+  rcases hP : (abs b).pieceAt d with _ | ⟨c', pc'⟩
+  · rfl
+  · simp only [Option.map_some]
+    by_cases hc : c' = b.turn
+    · subst hc; simp
+    · have e1 : (c' != b.turn) = true := by simpa using hc
+      have e2 : (some c' == some b.turn) = false := by simpa using hc
+      rw [e1, e2, Bool.true_and, Bool.not_false]
+      rw [bne_iff_ne]
+      rintro rfl
+      have hc' : c' = b.turn.flip := by
+        revert hc; cases c' <;> cases b.turn <;> simp [Color.flip]
+      subst hc'
+      have hd := AbsL.king_unique b hp hk _ d hP
+      have hna := opp_king_not_attacked b h
+      rw [← hd] at hna
+      have : (abs b).attacked d b.turn = true := by
+        unfold Position.attacked
+        rw [List.any_eq_true]
+        refine ⟨s, List.mem_finRange s, ?_⟩
+        rw [hs]
+        simp only [BEq.rfl, Bool.true_and]
+        exact ha
+      rw [hna] at this
+      cases this
 
 /-- the entry list `collect_moves` builds for one of the four piece types -/
 def genericList (b : Board) (pc : Piece) : List Entry :=
@@ -40,9 +120,306 @@ def genericList (b : Board) (pc : Piece) : List Entry :=
   else if BB.count b.checkers == 1 then b.genericLegals pc true (ownMask b)
   else []
 
+/-! ### entry lists -/
+
+theorem inEntries_append (l1 l2 : List Entry) (m : Move) :
+    InEntries (l1 ++ l2) m ↔ (InEntries l1 m ∨ InEntries l2 m) := by
+  unfold InEntries
+  constructor
+  · rintro ⟨e, he, h⟩
+    rcases List.mem_append.1 he with he | he
+    · exact Or.inl ⟨e, he, h⟩
+    · exact Or.inr ⟨e, he, h⟩
+  · rintro (⟨e, he, h⟩ | ⟨e, he, h⟩)
+    · exact ⟨e, List.mem_append_left _ he, h⟩
+    · exact ⟨e, List.mem_append_right _ he, h⟩
+
+theorem inEntries_nil (m : Move) : ¬ InEntries [] m := by
+  rintro ⟨e, he, _⟩
+  cases he
+
+/-- non-promotion entries pushed for a source list -/
+theorem inEntries_push (srcs : List Sq) (f : Sq → BB) (m : Move) :
+    InEntries (Board.pushEntries srcs f (fun _ => false)) m ↔
+      (m.source ∈ srcs ∧ BB.mem (f m.source) m.dest = true ∧ m.piece = none) := by
+  unfold InEntries
+  constructor
+  · rintro ⟨e, he, h1, h2, h3⟩
+    rw [mem_pushEntries] at he
+    obtain ⟨s, hs, _, rfl⟩ := he
+    simp only at h1 h2 h3
+    subst h1
+    exact ⟨hs, h2, by simpa using h3⟩
+  · rintro ⟨h1, h2, h3⟩
+    refine ⟨⟨m.source, f m.source, false⟩, ?_, rfl, h2, by simpa using h3⟩
+    rw [mem_pushEntries]
+    refine ⟨m.source, h1, ?_, rfl⟩
+    rw [Bool.eq_false_iff]
+    intro hn
+    rw [(BB.none_iff _).1 hn m.dest] at h2
+    cases h2
+
+/-- what `genericLegals` denotes -/
+theorem inEntries_generic (b : Board) (hp : b.raw.partitionOk = true) (pc : Piece) (ic : Bool) (mask : BB) (m : Move) :
+    InEntries (b.genericLegals pc ic mask) m ↔
+      (m.piece = none ∧ (abs b).pieceAt m.source = some (b.turn, pc) ∧
+        ((BB.mem b.pinned m.source = false ∧
+            BB.mem (Board.pseudoLegals pc m.source b.turn b.raw.all mask &&& b.checkMask ic (b.kingSq b.turn)) m.dest = true) ∨
+         ((ic || pc == .knight) = false ∧ BB.mem b.pinned m.source = true ∧
+            BB.mem (Board.pseudoLegals pc m.source b.turn b.raw.all mask &&& Lookup.line m.source (b.kingSq b.turn)) m.dest = true))) := by
+  have hsrc : ∀ P : BB, m.source ∈ BB.toList (b.raw.piece pc &&& b.raw.color b.turn &&& P) ↔
+      ((abs b).pieceAt m.source = some (b.turn, pc) ∧ BB.mem P m.source = true) := by
+    intro P
+    rw [BB.mem_toList, BB.mem_and', AbsL.mem_piece_color b hp, Bool.and_eq_true, decide_eq_true_eq]
+  unfold Board.genericLegals
+  simp only []
+  cases hic : (ic || pc == .knight)
+  · simp only [Bool.false_eq_true, if_false, inEntries_append, inEntries_push, hsrc, BB.mem_not',
+      Bool.not_eq_true', true_and]
+    constructor
+    · rintro (⟨⟨h1, h2⟩, h3, h4⟩ | ⟨⟨h1, h2⟩, h3, h4⟩)
+      · exact ⟨h4, h1, Or.inl ⟨h2, h3⟩⟩
+      · exact ⟨h4, h1, Or.inr ⟨h2, h3⟩⟩
+    · rintro ⟨h4, h1, ⟨h2, h3⟩ | ⟨h2, h3⟩⟩
+      · exact Or.inl ⟨⟨h1, h2⟩, h3, h4⟩
+      · exact Or.inr ⟨⟨h1, h2⟩, h3, h4⟩
+  · simp only [if_true, inEntries_push, hsrc, BB.mem_not', Bool.not_eq_true', Bool.true_eq_false,
+      false_and, or_false]
+    constructor
+    · rintro ⟨⟨h1, h2⟩, h3, h4⟩
+      exact ⟨h4, h1, h2, h3⟩
+    · rintro ⟨h4, h1, h2, h3⟩
+      exact ⟨⟨h1, h2⟩, h3, h4⟩
+
+
+/-! ### safety in terms of the generator's masks -/
+
+theorem forall_q_iff (mb : Sq → Option (Color × Piece)) (P : Position → Prop) (R : Prop)
+    (h : ∀ q : Position, q.pieceAt = mb → (P q ↔ R)) : (∀ q : Position, q.pieceAt = mb → P q) ↔ R := by
+  constructor
+  · intro hq
+    exact (h ⟨mb, .white, fun _ _ => false, none, 0, 0⟩ rfl).1 (hq _ rfl)
+  · intro hr q hq
+    exact (h q hq).2 hr
+
+/-- `legal_piece_iff` for the mailbox of a board -/
+theorem legal_piece_iff_b (b : Board) (h : b.WF = true) (m : Move) (pc : Piece)
+    (hsrc : (abs b).pieceAt m.source = some (b.turn, pc)) (hpc : pc ≠ .pawn ∧ pc ≠ .king) :
+    (abs b).legal m = true ↔
+      (m.piece = none ∧ (abs b).attacksFrom m.source b.turn pc m.dest = true ∧
+       destOk (abs b) b.turn m.dest = true ∧
+       ∀ q : Position, q.pieceAt = moveAt (abs b).pieceAt m.source m.dest (some (b.turn, pc)) →
+         q.attacked (b.kingSq b.turn) b.turn.flip = false) :=
+  legal_piece_iff (abs b) m pc (b.kingSq b.turn) hsrc hpc
+    (AbsL.kings_eq b (AbsL.wf_partition b h) (AbsL.wf_hasKings b h) b.turn)
+
+/-- no check: safe iff unpinned, or (not a knight and) on the line through the king -/
+theorem safe_iff_no_check (b : Board) (h : b.WF = true) (s d : Sq) (pc : Piece)
+    (hsrc : (abs b).pieceAt s = some (b.turn, pc)) (hpc : pc ≠ .king)
+    (hd : (abs b).colorAt d ≠ some b.turn) (hnc : BB.none b.checkers = true)
+    (hreach : pc ≠ .knight → ((rookReach (abs b).occupied s).contains d = true ∨
+      (bishopReach (abs b).occupied s).contains d = true))
+    (hkn : pc = .knight → knightAtt s d = true) :
+    (∀ q : Position, q.pieceAt = moveAt (abs b).pieceAt s d (some (b.turn, pc)) →
+         q.attacked (b.kingSq b.turn) b.turn.flip = false) ↔
+      (BB.mem b.pinned s = false ∨
+        (pc ≠ .knight ∧ BB.mem b.pinned s = true ∧ BB.mem (Lookup.line s (b.kingSq b.turn)) d = true)) := by
+  rw [forall_q_iff _ _ _ (fun q hq => safe_no_check b h s d pc pc hsrc hpc hd hnc q hq)]
+  have hocc : (abs b).occupied s = true := occupied_of_piece ⟨pc, hsrc⟩
+  have hpin := mem_pinned_iff_pins b h s hocc
+  cases hpn : BB.mem b.pinned s with
+  | false =>
+    simp only [true_or, iff_true]
+    intro X hX
+    have := hpin.2 ⟨X, hX⟩
+    rw [hpn] at this
+    cases this
+  | true =>
+    obtain ⟨X, hX⟩ := hpin.1 hpn
+    have hR : (∀ Y, pinsThrough (abs b) b.turn.flip (b.kingSq b.turn) Y s →
+        (d = Y ∨ d ∈ betweenList (b.kingSq b.turn) Y)) ↔ (d = X ∨ d ∈ betweenList (b.kingSq b.turn) X) := by
+      constructor
+      · intro hall; exact hall X hX
+      · intro hx Y hY
+        rw [← pinner_unique _ _ _ _ _ _ hX hY]; exact hx
+    rw [hR]
+    simp only [Bool.true_eq_false, false_or, true_and]
+    by_cases hk : pc = .knight
+    · have := knight_off_segment _ _ _ _ _ d hX (hkn hk)
+      constructor
+      · intro hx; exact absurd hx this
+      · rintro ⟨h1, _⟩; exact absurd hk h1
+    · have hkp := king_piece b h
+      have hdk : d ≠ b.kingSq b.turn := by
+        rintro rfl
+        apply hd
+        simp only [Position.colorAt, hkp, Option.map_some]
+      have hXocc : (abs b).occupied X = true := occupied_of_piece (sliderOn_facts _ _ _ _ hX.1).1
+      have hl := line_iff_slider (abs b) b.turn.flip (b.kingSq b.turn) X s d hX
+        (occupied_of_piece ⟨_, hkp⟩) hXocc (hreach hk) hdk
+      rw [hl]
+      constructor
+      · intro hx; exact ⟨hk, hx⟩
+      · rintro ⟨_, hx⟩; exact hx
+
+/-- one checker: safe iff unpinned and inside the check mask -/
+theorem safe_iff_one_check (b : Board) (h : b.WF = true) (s d C : Sq) (pc : Piece)
+    (hsrc : (abs b).pieceAt s = some (b.turn, pc)) (hpc : pc ≠ .king)
+    (hd : (abs b).colorAt d ≠ some b.turn) (hC : BB.toList b.checkers = [C]) :
+    (∀ q : Position, q.pieceAt = moveAt (abs b).pieceAt s d (some (b.turn, pc)) →
+         q.attacked (b.kingSq b.turn) b.turn.flip = false) ↔
+      (BB.mem b.pinned s = false ∧ BB.mem (b.checkMask true (b.kingSq b.turn)) d = true) := by
+  rw [forall_q_iff _ _ _ (fun q hq => safe_one_check b h s d C pc pc hsrc hpc hd hC q hq),
+    mem_checkMask_one b C hC, Bool.or_eq_true, beq_iff_eq, List.contains_iff_mem]
+
+/-- two or more checkers: never safe -/
+theorem not_safe_two_checks (b : Board) (h : b.WF = true) (s d : Sq) (pc : Piece)
+    (hsrc : (abs b).pieceAt s = some (b.turn, pc)) (hpc : pc ≠ .king)
+    (hd : (abs b).colorAt d ≠ some b.turn) (h2 : 2 ≤ BB.count b.checkers) :
+    ¬ (∀ q : Position, q.pieceAt = moveAt (abs b).pieceAt s d (some (b.turn, pc)) →
+         q.attacked (b.kingSq b.turn) b.turn.flip = false) := by
+  intro hall
+  have h1 := hall ⟨moveAt (abs b).pieceAt s d (some (b.turn, pc)), .white, fun _ _ => false, none, 0, 0⟩ rfl
+  rw [unsafe_two_checks b h s d pc pc hsrc hpc hd h2 _ rfl] at h1
+  cases h1
+
+/-- the three regimes by the number of checkers -/
+theorem checkers_cases (x : BB) :
+    BB.none x = true ∨ (BB.none x = false ∧ (BB.count x == 1) = true ∧ ∃ C, BB.toList x = [C]) ∨
+      (BB.none x = false ∧ (BB.count x == 1) = false ∧ 2 ≤ BB.count x) := by
+  cases hn : BB.none x with
+  | true => exact Or.inl rfl
+  | false =>
+    right
+    have hne : BB.toList x ≠ [] := by
+      intro he
+      have : BB.none x = true := by
+        rw [BB.none_iff]
+        intro s
+        rw [Bool.eq_false_iff]
+        intro hm
+        have := (BB.mem_toList x s).2 hm
+        rw [he] at this
+        cases this
+      rw [hn] at this
+      cases this
+    have hlen : BB.count x ≠ 0 := by
+      rw [BB.count_eq_length_toList]
+      intro h0
+      exact hne (List.length_eq_zero_iff.1 h0)
+    by_cases h1 : BB.count x = 1
+    · left
+      refine ⟨rfl, by simpa using h1, ?_⟩
+      rw [BB.count_eq_length_toList, List.length_eq_one_iff] at h1
+      exact h1
+    · right
+      refine ⟨rfl, by simpa using h1, by omega⟩
+
+
 /-- **knights, bishops, rooks, queens**: generated = legal -/
 theorem generic_iff (b : Board) (h : b.WF = true) (pc : Piece)
     (hpc : pc = .knight ∨ pc = .bishop ∨ pc = .rook ∨ pc = .queen) (m : Move) :
-    InEntries (genericList b pc) m ↔ ((abs b).pieceAt m.source = some (b.turn, pc) ∧ (abs b).legal m = true) := sorry
+    InEntries (genericList b pc) m ↔ ((abs b).pieceAt m.source = some (b.turn, pc) ∧ (abs b).legal m = true) := by
+  have hp := AbsL.wf_partition b h
+  have hpcne : pc ≠ .pawn ∧ pc ≠ .king := by
+    rcases hpc with rfl | rfl | rfl | rfl <;> exact ⟨fun e => (by cases e), fun e => (by cases e)⟩
+  -- the piece-specific facts
+  have hps : ∀ (s t : Sq) (mask : BB), BB.mem (Board.pseudoLegals pc s b.turn b.raw.all mask) t =
+      ((abs b).attacksFrom s b.turn pc t && BB.mem mask t) := by
+    intro s t mask
+    rcases hpc with rfl | rfl | rfl | rfl
+    · rw [AbsL.mem_pseudo_knight]; rfl
+    · rw [AbsL.mem_pseudo_bishop, ← AbsL.occupied_eq b hp]; rfl
+    · rw [AbsL.mem_pseudo_rook, ← AbsL.occupied_eq b hp]; rfl
+    · rw [AbsL.mem_pseudo_queen, ← AbsL.occupied_eq b hp]; rfl
+  have hreach : ∀ s t : Sq, (abs b).attacksFrom s b.turn pc t = true → pc ≠ .knight →
+      ((rookReach (abs b).occupied s).contains t = true ∨ (bishopReach (abs b).occupied s).contains t = true) := by
+    intro s t ha hk
+    rcases hpc with rfl | rfl | rfl | rfl
+    · exact absurd rfl hk
+    · exact Or.inr ha
+    · exact Or.inl ha
+    · simpa only [Position.attacksFrom, Bool.or_eq_true] using ha
+  have hkn : ∀ s t : Sq, (abs b).attacksFrom s b.turn pc t = true → pc = .knight → knightAtt s t = true := by
+    intro s t ha hk
+    subst hk
+    exact ha
+  -- the source must hold the piece
+  by_cases hsrc : (abs b).pieceAt m.source = some (b.turn, pc)
+  case neg =>
+    constructor
+    · intro hin
+      exfalso
+      apply hsrc
+      unfold genericList at hin
+      split at hin
+      · exact ((inEntries_generic b hp pc _ _ m).1 hin).2.1
+      · split at hin
+        · exact ((inEntries_generic b hp pc _ _ m).1 hin).2.1
+        · exact absurd hin (inEntries_nil m)
+    · rintro ⟨h1, _⟩
+      exact absurd h1 hsrc
+  rw [legal_piece_iff_b b h m pc hsrc hpcne]
+  have hmem : ∀ X : BB, BB.mem (Board.pseudoLegals pc m.source b.turn b.raw.all (ownMask b) &&& X) m.dest =
+      ((abs b).attacksFrom m.source b.turn pc m.dest && !((abs b).colorAt m.dest == some b.turn) && BB.mem X m.dest) := by
+    intro X
+    rw [BB.mem_and', hps, mem_ownMask b hp]
+  -- attack and destination conditions first
+  cases hA : (abs b).attacksFrom m.source b.turn pc m.dest with
+  | false =>
+    have hno : ¬ InEntries (genericList b pc) m := by
+      intro hin
+      unfold genericList at hin
+      split at hin
+      · have := ((inEntries_generic b hp pc _ _ m).1 hin).2.2
+        simp only [hmem, hA, Bool.false_and, Bool.false_eq_true, and_false, or_false] at this
+      · split at hin
+        · have := ((inEntries_generic b hp pc _ _ m).1 hin).2.2
+          simp only [hmem, hA, Bool.false_and, Bool.false_eq_true, and_false, or_false] at this
+        · exact absurd hin (inEntries_nil m)
+    constructor
+    · intro hin; exact absurd hin hno
+    · rintro ⟨_, _, h2, _⟩; cases h2
+  | true =>
+  rw [destOk_of_attacks b h m.source m.dest pc hsrc hA]
+  cases hN : (!((abs b).colorAt m.dest == some b.turn)) with
+  | false =>
+    have hno : ¬ InEntries (genericList b pc) m := by
+      intro hin
+      unfold genericList at hin
+      split at hin
+      · have := ((inEntries_generic b hp pc _ _ m).1 hin).2.2
+        simp only [hmem, hN, Bool.false_and, Bool.and_false, Bool.false_eq_true, and_false, or_false] at this
+      · split at hin
+        · have := ((inEntries_generic b hp pc _ _ m).1 hin).2.2
+          simp only [hmem, hN, Bool.false_and, Bool.and_false, Bool.false_eq_true, and_false, or_false] at this
+        · exact absurd hin (inEntries_nil m)
+    constructor
+    · intro hin; exact absurd hin hno
+    · rintro ⟨_, _, _, h2, _⟩; cases h2
+  | true =>
+  have hd : (abs b).colorAt m.dest ≠ some b.turn := by
+    intro e
+    rw [e] at hN
+    simp at hN
+  unfold genericList
+  rcases checkers_cases b.checkers with hnc | ⟨hnc, h1, C, hC⟩ | ⟨hnc, h1, h2⟩
+  · rw [if_pos hnc, inEntries_generic b hp, hmem, hmem, hA, hN, mem_checkMask_none,
+      safe_iff_no_check b h m.source m.dest pc hsrc hpcne.2 hd hnc (hreach _ _ hA) (hkn _ _ hA)]
+    simp only [Bool.and_self, Bool.true_and, Bool.false_or, beq_eq_false_iff_ne, ne_eq, and_true, true_and]
+    constructor
+    · rintro ⟨h3, _, h4⟩; exact ⟨hsrc, h3, h4⟩
+    · rintro ⟨_, h3, h4⟩; exact ⟨h3, hsrc, h4⟩
+  · rw [hnc, if_neg Bool.false_ne_true, if_pos h1, inEntries_generic b hp, hmem, hmem, hA, hN,
+      safe_iff_one_check b h m.source m.dest C pc hsrc hpcne.2 hd hC]
+    simp only [Bool.and_self, Bool.true_and, Bool.true_or, Bool.true_eq_false, false_and, or_false, true_and]
+    constructor
+    · rintro ⟨h3, _, h4⟩; exact ⟨hsrc, h3, h4⟩
+    · rintro ⟨_, h3, h4⟩; exact ⟨h3, hsrc, h4⟩
+  · rw [hnc, h1, if_neg Bool.false_ne_true, if_neg Bool.false_ne_true]
+    constructor
+    · intro hin; exact absurd hin (inEntries_nil m)
+    · rintro ⟨_, _, _, _, h3⟩
+      exact absurd h3 (not_safe_two_checks b h m.source m.dest pc hsrc hpcne.2 hd h2)
 
 end Chess.Legal
